@@ -16,7 +16,7 @@ EXTENDS Naturals, Sequences, FiniteSets, TLC, Json
 ParseOps == {"parse"}
 \* ops that are allowed to change exactly one component, to the requested value
 StepFailing(pre, a, post) ==
-    IF a.op \in {"parse", "combine", "domedit", "serialize", "newparser", "mqedit", "valueedit", "profileaddremove", "profileswitch", "tokenizer"} THEN
+    IF a.op \in {"parse", "combine", "domedit", "serialize", "newparser", "mqedit", "valueedit", "profileaddremove", "profileswitch", "serializeraises", "tokenizer"} THEN
         (IF post.mode # pre.mode THEN "ErrorModeRestored"
          ELSE IF post.prefs # pre.prefs THEN "PreferencesRestored"
          ELSE IF post.profiles # pre.profiles THEN "ProfilesRestored"
@@ -30,6 +30,13 @@ StepFailing(pre, a, post) ==
     ELSE IF a.op = "probe" THEN
         (IF post.mode # pre.mode \/ post.prefs # pre.prefs \/ post.profiles # pre.profiles THEN "ProbeIsReadOnly"
          ELSE "ok")
+    ELSE "ok"
+
+\* outcomes that do not depend on anything that went before: a profile that is added takes effect for the declarations parsed
+\* next (however many validations there were before), a serialisation whose validator raises passes the exception on
+OutFailing(a, out) ==
+    IF a.op = "profileaddremove" /\ out # "ok" THEN "AddedProfileTakesEffect"
+    ELSE IF a.op = "serializeraises" /\ out # "raised" THEN "ValidatorExceptionReachesTheCaller"
     ELSE "ok"
 
 \* a probe event carries the battery's results in this process and in a fresh process with the same mode and
